@@ -12,7 +12,7 @@ import (
 
 // SOp is one seat-manager operation.
 type SOp struct {
-	K      string `json:"k"`                // join | joinany | seat | reserve | leave | next | restore
+	K      string `json:"k"`                // join | joinany | seat | reserve | leave | next | restore | reset
 	S      int    `json:"s"`                // seat id (join/seat/reserve/leave); may be out of range
 	Target int    `json:"target,omitempty"` // joinany: the free seat the history continues with
 	Res    string `json:"res,omitempty"`    // observed result, informational
@@ -461,6 +461,17 @@ func (r *Run) Step(op SOp) *vlib.Violation {
 			if !P[id] {
 				r.Facts["gap-near-button"] = true
 			}
+		}
+	case "reset":
+		// the table is recycled: every seat is emptied
+		cr = r.call(func() (int, error) { m.Reset(); return 0, nil })
+		op.Res = resStr(cr)
+		r.Ops = append(r.Ops, op)
+		if cr.panic == nil {
+			for i := range r.Occ {
+				r.Occ[i], r.Res[i] = "", false
+			}
+			r.Facts["reset"] = true
 		}
 	case "restore":
 		// The table is restored from a snapshot of its seats (ApplyStates), the way a
